@@ -201,6 +201,7 @@ type Accounting struct {
 	// structure statistics
 	Branches, Leaves, Overflows, InlineBuckets, Buckets, BucketsWithSeq, Depth int
 	Tree                                                                       *model.Bucket
+	LeafNames                                                                  map[uint64][]string // names stored on each (non-inline) leaf page
 }
 
 func (a *Accounting) anom(format string, args ...any) {
@@ -523,6 +524,12 @@ func (f *File) walkLeaf(a *Accounting, what string, pg []byte, h PageHeader, b *
 			a.anom("%s: key %d not below the next parent separator", what, i)
 		}
 		prev = key
+		if h.ID != 0 {
+			if a.LeafNames == nil {
+				a.LeafNames = map[uint64][]string{}
+			}
+			a.LeafNames[h.ID] = append(a.LeafNames[h.ID], string(key))
+		}
 		if flags&^uint32(LeafFlagBucket) != 0 {
 			a.anom("%s element %d: unknown leaf flags %#x", what, i, flags)
 		}
